@@ -88,7 +88,13 @@ func runC18(c *c18Case) *c18Obs {
 		return lime.MemberAuthenticationResult(), nil
 	}
 	cfg.Register = func(_ context.Context, n lime.Node, _ *lime.ServerChannel) (lime.Node, error) { return n, nil }
-	cfg.Established = func(id string, _ *lime.ServerChannel) { event("est:" + id) }
+	chByID := map[string]*lime.ServerChannel{}
+	cfg.Established = func(id string, ch *lime.ServerChannel) {
+		mu.Lock()
+		chByID[id] = ch
+		mu.Unlock()
+		event("est:" + id)
+	}
 	cfg.Finished = func(id string) { event("fin:" + id) }
 	mux := &lime.EnvelopeMux{}
 	mux.MessageHandlerFunc(nil, func(ctx context.Context, _ *lime.Message, _ lime.Sender) error {
@@ -150,7 +156,7 @@ func runC18(c *c18Case) *c18Obs {
 		x := &cli{stop: make(chan struct{})}
 		clis[i] = x
 		switch cl.Stage {
-		case "established", "established-traffic":
+		case "established", "established-traffic", "established-deaf":
 			t, _, err := dial(li)
 			if err != nil {
 				obs.Note = "harness: dial: " + err.Error()
@@ -163,6 +169,25 @@ func runC18(c *c18Case) *c18Obs {
 			cancel()
 			if err != nil || ses.State != lime.SessionStateEstablished {
 				obs.Note = fmt.Sprintf("harness: establish: %v", err)
+				continue
+			}
+			if cl.Stage == "established-deaf" {
+				// the application does not consume and the server keeps pushing until nothing more fits: when the server
+				// shuts down it cannot deliver the finished envelope to this client
+				synctest.Wait()
+				mu.Lock()
+				sch := chByID[x.cc.ID()]
+				mu.Unlock()
+				for k := 0; sch != nil && k < 400; k++ {
+					ctx, cancel := context.WithTimeout(context.Background(), 200*time.Millisecond)
+					m := c13Message(fmt.Sprintf("push-%d-%d", i, k))
+					m.SetContent(lime.TextDocument(strings.Repeat("p", 8192)))
+					err := sch.SendMessage(ctx, m)
+					cancel()
+					if err != nil {
+						break
+					}
+				}
 				continue
 			}
 			go func() {
@@ -426,7 +451,7 @@ func judgeC18(c *c18Case, obs *c18Obs, o *Outcome) {
 	for i, id := range obs.ClientEst {
 		if id != "" {
 			truth[id] = true
-			if i < len(c.Clients) && strings.HasPrefix(c.Clients[i].Stage, "established") && obs.ClientStates[i] != "finished" {
+			if i < len(c.Clients) && strings.HasPrefix(c.Clients[i].Stage, "established") && c.Clients[i].Stage != "established-deaf" && obs.ClientStates[i] != "finished" {
 				o.Fail("C18/established-client-did-not-see-finished", "client %d (session %s) ended in state %q", i, id, obs.ClientStates[i])
 			}
 		}
@@ -490,7 +515,7 @@ func genC18(rt *rapid.T) *c18Case {
 	nc := rapid.IntRange(0, 12).Draw(rt, "nclients")
 	for i := 0; i < nc; i++ {
 		c.Clients = append(c.Clients, c18Client{Listener: rapid.IntRange(0, nl-1).Draw(rt, "l"),
-			Stage: rapid.SampledFrom([]string{"dialled", "new-sent", "negotiating", "in-authenticate", "established", "established", "established-traffic", "failing", "rejected"}).Draw(rt, "stage")})
+			Stage: rapid.SampledFrom([]string{"dialled", "new-sent", "negotiating", "in-authenticate", "established", "established", "established-traffic", "established-deaf", "failing", "rejected"}).Draw(rt, "stage")})
 	}
 	if rapid.Bool().Draw(rt, "flood?") {
 		c.Flood = rapid.IntRange(1, 8).Draw(rt, "flood")
